@@ -799,6 +799,17 @@ impl Function2 {
         }
     }
 
+    /// `<`, `<=`, `>`, `>=` on strings must see the decoded strings: a constant that is absent from a column's
+    /// dictionary has no dictionary index that orders correctly against the indices of the stored strings.
+    pub fn string_order_comparison_op(factory: Factory) -> Function2 {
+        Function2 {
+            factory,
+            input_type_signatures: vec![(BasicType::String, BasicType::String)],
+            type_out: Type::unencoded(BasicType::Boolean).mutable(),
+            encoding_invariance: false,
+        }
+    }
+
     pub fn forward_left_null(t: BasicType) -> Function2 {
         Function2 {
             factory: Box::new(|_, lhs, _| lhs),
@@ -896,10 +907,9 @@ fn function2_registry() -> HashMap<Func2Type, Vec<Function2>> {
                     Box::new(|qp, lhs, rhs| qp.less_than(lhs, rhs)),
                     BasicType::Float,
                 ),
-                Function2::comparison_op(
-                    Box::new(|qp, lhs, rhs| qp.less_than(lhs, rhs)),
-                    BasicType::String,
-                ),
+                Function2::string_order_comparison_op(Box::new(|qp, lhs, rhs| {
+                    qp.less_than(lhs, rhs)
+                })),
                 Function2 {
                     factory: Box::new(|qp, lhs, rhs| {
                         // TODO: not strictly correct, casting int to float can lose precision, causing aliased values to compare differently (value might be smaller but compares as equal)
@@ -932,10 +942,9 @@ fn function2_registry() -> HashMap<Func2Type, Vec<Function2>> {
                     Box::new(|qp, lhs, rhs| qp.less_than_equals(lhs, rhs)),
                     BasicType::Float,
                 ),
-                Function2::comparison_op(
-                    Box::new(|qp, lhs, rhs| qp.less_than_equals(lhs, rhs)),
-                    BasicType::String,
-                ),
+                Function2::string_order_comparison_op(Box::new(|qp, lhs, rhs| {
+                    qp.less_than_equals(lhs, rhs)
+                })),
                 Function2 {
                     factory: Box::new(|qp, lhs, rhs| {
                         // TODO: not strictly correct, casting int to float can lose precision, causing aliased values to compare differently (value might be smaller but compares as equal)
@@ -974,10 +983,9 @@ fn function2_registry() -> HashMap<Func2Type, Vec<Function2>> {
                     Box::new(|qp, lhs, rhs| qp.less_than(rhs, lhs)),
                     BasicType::Float,
                 ),
-                Function2::comparison_op(
-                    Box::new(|qp, lhs, rhs| qp.less_than(rhs, lhs)),
-                    BasicType::String,
-                ),
+                Function2::string_order_comparison_op(Box::new(|qp, lhs, rhs| {
+                    qp.less_than(rhs, lhs)
+                })),
                 Function2 {
                     factory: Box::new(|qp, lhs, rhs| {
                         // TODO: not strictly correct, casting int to float can lose precision, causing aliased values to comapre differently (value might be smaller but compares as equal)
@@ -1016,10 +1024,9 @@ fn function2_registry() -> HashMap<Func2Type, Vec<Function2>> {
                     Box::new(|qp, lhs, rhs| qp.less_than_equals(rhs, lhs)),
                     BasicType::Float,
                 ),
-                Function2::comparison_op(
-                    Box::new(|qp, lhs, rhs| qp.less_than_equals(rhs, lhs)),
-                    BasicType::String,
-                ),
+                Function2::string_order_comparison_op(Box::new(|qp, lhs, rhs| {
+                    qp.less_than_equals(rhs, lhs)
+                })),
                 Function2 {
                     factory: Box::new(|qp, lhs, rhs| {
                         // TODO: not strictly correct, casting int to float can lose precision, causing aliased values to comapre differently (value might be smaller but compares as equal)
